@@ -99,6 +99,7 @@ func TestWorker(t *testing.T) {
 	out := os.Getenv("VERIF_OUT")
 	replayDir := os.Getenv("VERIF_REPLAY_DIR")
 	maxViol := envInt("VERIF_MAX_VIOLATIONS", 2)
+	journal := os.Getenv("VERIF_JOURNAL")
 	trace := os.Getenv("VERIF_TRACE") != "" // determinism gate: digest of every scenario + verdict
 
 	res := &Result{Property: id, Seed: seed, Shard: shard, Race: raceEnabled, NTPoints: map[string]uint64{}}
@@ -116,6 +117,14 @@ func TestWorker(t *testing.T) {
 		env.NonTrivial = false
 		env.ExtraEvals, env.NTPoints = 0, 0
 		env.LogBuf.Reset()
+		if journal != "" {
+			// a crash that cannot be recovered (stack overflow, runtime fatal error) takes the process down:
+			// the scenario about to run is left behind as the replay file
+			jb, _ := json.Marshal(sc)
+			rep := props.Replay{Property: id, Seed: seed, Shard: shard, Run: run, Oracle: "fatal-crash", Observed: "the worker process died while executing this scenario", Scenario: jb, Race: raceEnabled}
+			rb, _ := json.Marshal(rep)
+			os.WriteFile(journal, rb, 0o644)
+		}
 		v := props.SafeExec(p, sc, env)
 		res.Evaluations += 1 + env.ExtraEvals
 		if env.NTPoints > 0 && len(res.NTPoints) < 40000 {
